@@ -84,6 +84,7 @@ class Reg:
     def __init__(self, cls, how):
         self.id = next(Reg.counter)
         self.cls, self.how = cls, how
+        self.entry = None
 
         def flatten(o, _s=self):
             CALLS.append(('fn', _s.id))
@@ -95,7 +96,9 @@ class Reg:
         self.flatten, self.unflatten = flatten, unflatten
 
 
-OPS = ('reg', 'regc', 'regd', 'unreg', 'dc', 'reg_bad_entry')
+OPS = ('reg', 'regc', 'regd', 'unreg', 'dc', 'reg_bad_entry',
+       'regp',                          # register_pytree_node_class('<namespace>')(cls): namespace as the first positional argument
+       'reg_e', 'regc_e', 'regp_e', 'regd_e')     # the same calls with an explicit path_entry_type, which every form must pass through
 TYPES = ('P', 'S', 'NT', 'SS', 'SS2', 'D', 'list', 'dict', 'none', 'X')
 NSS = ('G', 'a', 'b', 'E')
 
@@ -146,7 +149,12 @@ class C12(runner.Prop):
         try:
             for step, (op, tname, ns) in enumerate(case['hist']):
                 before = dict(model)
+                expect = self.expected_outcome(op, tname, ns, types, model, case['warn'])
                 ok, exc = self.apply(op, tname, ns, types, model, decorated, case['warn'])
+                if expect is True and not ok:
+                    ctx.fail('step/legal_call_failed', f'step {step} {op} {tname} {ns}: {type(exc).__name__}: {exc}')
+                elif expect is False and ok:
+                    ctx.fail('step/illegal_call_accepted', f'step {step} {op} {tname} {ns}')
                 if not ok:
                     failing = True
                     model.clear()
@@ -189,19 +197,33 @@ class C12(runner.Prop):
         with warnings.catch_warnings():
             warnings.simplefilter('error' if warn == 'error' else 'ignore')
             try:
-                if op in ('reg', 'reg_bad_entry'):
+                if op in ('reg', 'reg_bad_entry', 'reg_e'):
                     r = Reg(cls, 'fn')
                     kwargs = {'namespace': nsarg}
                     if op == 'reg_bad_entry':
                         kwargs['path_entry_type'] = int
+                    if op == 'reg_e':
+                        kwargs['path_entry_type'] = r.entry = optree.GetAttrEntry
                     optree.register_pytree_node(cls, r.flatten, r.unflatten, **kwargs)
                     model[key] = r
                 elif op == 'regc':
                     optree.register_pytree_node_class(cls, namespace=nsarg)
-                    model[key] = ('cls', cls)
+                    model[key] = ('cls', cls, None)
+                elif op == 'regc_e':
+                    optree.register_pytree_node_class(cls, path_entry_type=optree.GetAttrEntry, namespace=nsarg)
+                    model[key] = ('cls', cls, optree.GetAttrEntry)
                 elif op == 'regd':
                     optree.register_pytree_node_class(namespace=nsarg)(cls)
-                    model[key] = ('cls', cls)
+                    model[key] = ('cls', cls, None)
+                elif op == 'regd_e':
+                    optree.register_pytree_node_class(path_entry_type=optree.GetAttrEntry, namespace=nsarg)(cls)
+                    model[key] = ('cls', cls, optree.GetAttrEntry)
+                elif op == 'regp':
+                    optree.register_pytree_node_class(nsarg)(cls)
+                    model[key] = ('cls', cls, None)
+                elif op == 'regp_e':
+                    optree.register_pytree_node_class(nsarg, path_entry_type=optree.GetAttrEntry)(cls)
+                    model[key] = ('cls', cls, optree.GetAttrEntry)
                 elif op == 'unreg':
                     optree.unregister_pytree_node(cls, namespace=nsarg)
                     del model[key]
@@ -220,8 +242,24 @@ class C12(runner.Prop):
             except Exception as e:  # noqa: BLE001
                 return False, e
 
-    def expected_legal(self, op, tname, ns, cls, model, decorated, warn):
-        return None
+    def expected_outcome(self, op, tname, ns, types, model, warn):
+        """True / False where the property fixes the outcome, None otherwise (dataclass decoration, warnings turned
+        into errors, class forms on classes without tree_flatten)"""
+        if op == 'dc':
+            return None
+        user = tname in types
+        key = (NS_KEY.get(ns), types.get(tname))
+        if op == 'unreg':
+            if not user or ns == 'E':
+                return False                       # built-in / non-class / empty namespace
+            return key in model                    # absent => must fail, present => must succeed
+        if not user or ns == 'E' or op == 'reg_bad_entry' or key in model:
+            return False                           # non-class, built-in, empty namespace, bad entry type, duplicate
+        if warn == 'error' and tname in ('NT', 'SS', 'SS2'):
+            return None                            # the namedtuple / struct sequence warning becomes an error
+        if op in ('regc', 'regc_e', 'regd', 'regd_e', 'regp', 'regp_e') and not hasattr(types[tname], 'tree_flatten'):
+            return None
+        return True
 
     def observe(self, step, opdesc, types, model, ctx):
         where = f'after step {step} {opdesc}'
@@ -276,6 +314,17 @@ class C12(runner.Prop):
                             ctx.fail('mirror/get_wrong_namespace', f'{where}: get({tname}, {ns!r}).namespace = {py.namespace!r} expected {want_ns!r}')
                         if isinstance(reg, Reg) and py.flatten_func is not reg.flatten:
                             ctx.fail('mirror/get_wrong_registration', f'{where}: get({tname}, {ns!r}) has another flatten_func')
+                        # an explicitly given path entry type is the one recorded and the one accessors are built with
+                        want_entry = reg.entry if isinstance(reg, Reg) else (reg[2] if reg[0] == 'cls' else None)
+                        if want_entry is not None:
+                            if py.path_entry_type is not want_entry:
+                                ctx.fail('mirror/path_entry_type', f'{where}: get({tname}, {ns!r}).path_entry_type = {py.path_entry_type} expected {want_entry}')
+                            try:
+                                accs = optree.tree_accessors(inst, namespace=ns)
+                                if accs and len(accs[0]) and type(accs[0][0]) is not want_entry:
+                                    ctx.fail('observe/path_entry_type', f'{where}: {tname} ns={ns!r}: accessor entry {type(accs[0][0]).__name__}')
+                            except Exception as e:  # noqa: BLE001
+                                ctx.fail('observe/accessors_raise', f'{where}: {tname} ns={ns!r}: {type(e).__name__}: {e}')
                     e2 = pyall.get(cls)
                     if e2 is None:
                         ctx.fail('mirror/getall_misses_registration', f'{where}: {tname} not in get(namespace={ns!r})')
